@@ -66,7 +66,13 @@ class IkeSaController:
                 return None
 
         # generate the reply (if any)
-        reply = ike_sa.process_message(data)
+        try:
+            reply = ike_sa.process_message(data)
+        finally:
+            # a responder IKE_SA whose IKE_SA_INIT request was malformed or ignored never leaves INITIAL and cannot be
+            # reached again (the peer never learns its SPI): do not keep it
+            if ike_sa.state == IkeSa.State.INITIAL and not ike_sa.is_initiator and ike_sa in self.ike_sas:
+                self.ike_sas.remove(ike_sa)
 
         # if rekeyed, add the new IkeSa
         if (ike_sa.state in (IkeSa.State.REKEYED, IkeSa.State.DEL_AFTER_REKEY_IKE_SA_REQ_SENT)
